@@ -78,6 +78,9 @@ def run(ctx, what, n_cases, ref=False, gen_kwargs=None, cases=None):
     gen_kwargs = gen_kwargs or {}
     if cases is None:
         cases = []
+        if not ctx.quick and not ref:
+            cases = exprgen.enum_cases(ctx.rng)   # operator x operand-form table, complete
+            n_cases += len(cases)
         while len(cases) < n_cases:
             c = exprgen.gen_case(ctx.rng, **gen_kwargs)
             if c is not None:
